@@ -2,7 +2,7 @@ PROP = dict(
     modules=["Shangrla.Props.C09", "Shangrla.Props.RiskLimit", "Shangrla.Props.RiskLimitStyle",
              "Shangrla.Props.RiskLimitPlurality", "Shangrla.Props.RiskLimitComparison", "Shangrla.Props.RiskLimitIID", "Shangrla.Props.RiskLimitIRVComparison",
              "Shangrla.Props.RiskLimitIRV", "Shangrla.Props.RiskLimitComparisonFull",
-             "Shangrla.Props.RiskLimitComparisonOutcome"],
+             "Shangrla.Props.RiskLimitComparisonOutcome", "Shangrla.Props.RiskLimitIRVComparisonFull"],
     theorems=["Shangrla.C09.pvalues_are_tests", "Shangrla.C09.pvalues_are_tests_pos", "Shangrla.C09.contest_max",
               "Shangrla.C09.audit_max", "Shangrla.C09.audit_max_nan_iff", "Shangrla.C09.audit_max_largest",
               "Shangrla.C09.proved_sticky", "Shangrla.C09.proved_of_le", "Shangrla.C09.dicts_mirror",
@@ -49,7 +49,15 @@ PROP = dict(
               "Shangrla.RiskLimit.plurality_comparison_risk_limit", "Shangrla.RiskLimit.supermajority_comparison_risk_limit",
               "Shangrla.RiskLimit.plurality_comparison_risk_limit_zip",
               "Shangrla.RiskLimit.supermajority_comparison_risk_limit_zip",
-              "Shangrla.RiskLimit.example_comparison_outcome_exact"],
+              "Shangrla.RiskLimit.example_comparison_outcome_exact",
+              # with C04 / C14 on top of it: a wrong reported IRV winner on the manual records => risk limit of the
+              # comparison / ONEAudit audit of RAIRE's assertions on the literal model (also registered under C14)
+              "Shangrla.RiskLimit.irv_comparison_null_iff", "Shangrla.RiskLimit.irv_comparison_false_assertion",
+              "Shangrla.RiskLimit.irv_comparison_full_risk_limit",
+              "Shangrla.RiskLimit.irv_comparison_full_wrong_winner_risk_limit",
+              "Shangrla.RiskLimit.irv_comparison_full_wrong_winner_risk_limit_found",
+              "Shangrla.RiskLimit.raire_comparison_full_wrong_winner_risk_limit",
+              "Shangrla.RiskLimit.example_irv_comparison_full_exact"],
     groups={"status": (1200, 12000), "auditrisk": (60, 600)},
     design_ref="DESIGN.md section 5, C09",
     assumptions=["the statistical test and the data extraction (asn.test.test, Assertion.mvrs_to_data) are parameters of "
